@@ -552,11 +552,13 @@ func (a *IPAllocator) SetAllocation(subscriberID string, prefix *net.IPNet) erro
 		}
 	}
 
-	// Set new allocation
+	// Set new allocation (count it only once: replaying the same record again is a no-op)
+	if a.bitmap.Bit(int(idx)) == 0 {
+		a.allocatedCount.Add(a.allocatedCount, big.NewInt(1))
+	}
 	a.bitmap.SetBit(a.bitmap, int(idx), 1)
 	a.allocated[subscriberID] = idx
 	a.indexToSubscriber[idx] = subscriberID
-	a.allocatedCount.Add(a.allocatedCount, big.NewInt(1))
 
 	return nil
 }
